@@ -87,7 +87,9 @@ def run_property(prop, tier, seed):
             undecided.append({'contract': r['contract'], 'why': r['status'], 'detail': r['error']})
             fallback_funcs.add(r['contract'])
             continue
-        if r['vacuous']:
+        if r['vacuous'] and all(o['status'] == 'proved' for o in r['obligations']):
+            # everything "proved" although no exit is reachable: the contract is contradictory (a checker defect).  When an
+            # obligation fails, an unreachable exit is merely the assumed invariant contradicting the changed code.
             crashed.append(dict(r, error='vacuous contract: precondition unsatisfiable or no reachable exit'))
             continue
         if not r['obligations']:
